@@ -408,6 +408,7 @@ func (t *simTransport) RoundTrip(req *http.Request) (*http.Response, error) {
 	charset := file.Charset
 	failAt := -1
 	cutAt := -1
+	lyingLength := int64(-1)
 	outcome := "ok"
 	if flt != nil {
 		t.sm.fire("http-" + flt.Kind)
@@ -422,6 +423,30 @@ func (t *simTransport) RoundTrip(req *http.Request) (*http.Response, error) {
 		case "cut":
 			// the peer closes cleanly after N wire bytes (no Content-Length): a short body, no error
 			cutAt = flt.N
+		case "status":
+			// an error (or odd) status with a small body; 429 / 503 ask to retry at once
+			resp.StatusCode, resp.Status = flt.N, fmt.Sprintf("%d Simulated", flt.N)
+			hdr.Set("Content-Type", "text/html; charset=utf-8")
+			if flt.N == 429 || flt.N == 503 {
+				hdr.Set("Retry-After", "0")
+			}
+			if flt.N == 301 {
+				hdr.Set("Location", url) // a redirect to itself, handed over as a response (the client follows none)
+			}
+			body := []byte("<html><body><h1>simulated status</h1></body></html>")
+			if flt.N == 204 {
+				body = nil
+			}
+			resp.Body = &chunkBody{data: body, failAt: -1}
+			resp.ContentLength = int64(len(body))
+			done(outcome, len(body))
+			return resp, nil
+		case "clen":
+			// the real body, announced with an absurd (N < 0) or a too small Content-Length
+			lyingLength = int64(flt.N)
+			if flt.N < 0 {
+				lyingLength = 1 << 62
+			}
 		default:
 			d, mime, cs, _, _ := mutate(flt, data, func(name string) []byte {
 				if o, ok := sc.Files[name]; ok {
@@ -465,7 +490,7 @@ func (t *simTransport) RoundTrip(req *http.Request) (*http.Response, error) {
 		wire = wire[:cutAt]
 	}
 	resp.Body = &chunkBody{data: wire, failAt: failAt, rng: simrt.SplitMix(simrt.HashString(url) ^ uint64(mySeq)), eofData: (simrt.HashString(url)^uint64(mySeq))&2 != 0}
-	resp.ContentLength = -1
+	resp.ContentLength = lyingLength
 	done(outcome, len(wire))
 	return resp, nil
 }
